@@ -24,6 +24,20 @@ def c15_r1(ctx):
     returns Ok only on the edge size == 0; no other input call; the digest is
     crypto::sha2::Sha256 and is the one returned."""
     fs = [f for f in prod(ctx.P) if any(c.path == "std::io::Read::read" for c in f.calls) and any(c.path == "crypto::digest::Digest::input" for c in f.calls)]
+    if not fs:
+        # no chunk loop: the file read in one piece.  What can still be decided: the bytes that
+        # reach the hash are the bytes read, not a re-encoding of them
+        for f in prod(ctx.P):
+            rte = [c for c in f.calls if c.path == "std::io::Read::read_to_end"]
+            if not rte or f.id != "ticket::TicketFactory::from_file":
+                continue
+            ctx.saw(f)
+            ctx.inst("whole-file read in %s" % f.id, rte[0].where)
+            conv = [c for c in f.calls if c.name in ("from_utf8_lossy", "from_utf8", "from_utf8_unchecked", "to_string_lossy", "to_lowercase", "to_uppercase", "trim", "trim_end", "trim_start", "replace", "lines")]
+            if conv:
+                ctx.viol((f.id, "content-reencoded-before-hash"), "the bytes read from the file go through `%s` before they are hashed: the ticket is no longer the hash of the file's bytes (different files can get the same ticket)" % conv[0].name, conv[0].where)
+                return
+            raise AnalysisError("idiom not recognised: %s reads the file in one piece (the rule reads the chunk loop)" % f.id)
     ctx.need(len(fs) == 1, "the chunked file hasher")
     f = fs[0]
     ctx.saw(f)
@@ -442,10 +456,13 @@ def c16_r1(ctx):
     default entry points, and both derive the file path from the same owner field."""
     ser = [c for f in prod(ctx.P) for c in f.calls if c.path.endswith("bincode::serialize")]
     de = [c for f in prod(ctx.P) for c in f.calls if c.path.endswith("bincode::deserialize")]
+    other = [c for f in prod(ctx.P) for c in f.calls if "bincode::" in c.path and not c.path.endswith(("bincode::serialize", "bincode::deserialize"))]
+    for c in other:
+        ctx.inst("bincode entry point %s" % c.path, c.where)
+        ctx.viol((c.fn.id, "bincode-options", c.path), "a bincode entry point other than serialize / deserialize of a byte slice is used (%s): writer and reader no longer go through the same encoding of the same bytes - a streaming decoder, for one, trusts a length prefix before it knows how many bytes there are, so a damaged file ends in a huge allocation or a panic instead of an error" % c.path.split("::")[-1], c.where)
+    if other:
+        return
     ctx.need(len(ser) >= 2 and len(de) >= 2, "bincode serialize/deserialize sites")
-    for c in [x for f in prod(ctx.P) for x in f.calls]:
-        if "bincode::" in c.path and not c.path.endswith(("bincode::serialize", "bincode::deserialize")):
-            ctx.viol((c.fn.id, "bincode-options", c.path), "a non-default bincode entry point is used on one side only", c.where)
 
     def ty_of(c, idx):
         g = c.callee.get("generic_args", [])
@@ -1112,6 +1129,28 @@ def c19_r6(ctx):
             ctx.viol((f.id, "not-a-file-not-notthere"), "an entry that is not a regular file is not answered with NotThere", op.where)
         else:
             ctx.ok()
+
+
+@rule("C19.R7", floor=1)
+def c19_r7(ctx):
+    """What the server answers is what is on disk now: the objects the endpoints look things up
+    through (`History`, `SysCache`) carry no memo - no field of a container or interior-
+    mutability type - so a record written by a `ruler build` after the server started is seen
+    by the next request."""
+    memo = ("HashMap<", "BTreeMap<", "HashSet<", "BTreeSet<", "Vec<", "VecDeque<", "RefCell<", "Cell<", "Mutex<", "RwLock<", "OnceCell<", "OnceLock<", "Arc<")
+    n = 0
+    for path in ("history::History", "cache::SysCache"):
+        a = ctx.P.facts.adts.get(path)
+        if a is None:
+            continue
+        n += 1
+        ctx.inst("fields of %s" % path)
+        bad = [fl for fl in a["variants"][0]["fields"] if any(m in fl["ty"]["s"] for m in memo)]
+        if bad:
+            ctx.viol((path, "lookup-object-has-memo", bad[0]["name"]), "%s has a field `%s : %s`: an object that lives as long as the server can remember what it read, and then answers a request from memory instead of from the files a later build has written" % (path, bad[0]["name"], bad[0]["ty"]["s"][:80]))
+        else:
+            ctx.ok()
+    ctx.need(n, "the History / SysCache types")
 
 
 @rule("C19.R5", floor=2)
